@@ -46,6 +46,16 @@ def handleLazy (op : String) (args : List String) : Option String :=
       some (match Model.CatSlice.positions n idx with
         | none => "err IndexError"
         | some ps => "ok " ++ (if ps.isEmpty then "-" else ",".intercalate (ps.map toString)))
+  | "catlabels", rest =>
+      -- `catlabels <labels of the catalogue> | <requested labels>` → positions or ValueError
+      match splitBar rest with
+      | [labs, req] => do
+          let labs ← allSome (labs.map parseNat?)
+          let req ← allSome (req.map parseNat?)
+          some (match Model.CatSlice.labelPositions labs req with
+            | none => "err ValueError"
+            | some ps => "ok " ++ (if ps.isEmpty then "-" else ",".intercalate (ps.map toString)))
+      | _ => none
   | "prof.monoprefix", vs => do
       let v ← allSome (vs.map parseRat?)
       some s!"ok {Model.Profile.monoPrefixLen v}"
